@@ -422,6 +422,15 @@ func TestC12_Blocks(t *testing.T) {
 					r = base
 				}
 			}
+			if r.Kind == "rlimit" {
+				// two limits on one resource: the last one in the text wins, the meaning
+				// depends on the order of the rules (contradictory policy, like two exec
+				// transitions for one path)
+				if execOf["rlimit:"+r.Str("Key")] {
+					continue
+				}
+				execOf["rlimit:"+r.Str("Key")] = true
+			}
 			if r.Kind == "file" {
 				acc := r.List("Access")
 				last := acc[len(acc)-1]
